@@ -171,7 +171,76 @@ def gen_load_case(rng, rep=3):
     if f_l or rng.random() < 0.5:
         if f_l:
             case["file"] = json.dumps(build(f_l), ensure_ascii=False)
-    return case
+    # a prefix of its own (lower / mixed case, padded, empty) and foreign variables in between
+    return maybe_prefix(case, rng, 0.3, allow_empty=True)
+
+
+# ---------------------------------------------------------------------------------------------------------------
+# the prefix of the variable names (--env-config-prefix): whatever the operator configures - lower or mixed case,
+# without the trailing underscore, with a dot or underscores inside, padded with blanks - is the prefix, as written.
+# A case under a prefix of its own lists the variables of the PROCESS under their full names; among them are foreign
+# ones, named like real ones but for the case of letters of the prefix (or a truncated / shifted prefix), which would
+# define conflicting values if the loader took them
+
+PREFIXES = ["VERIFC20P_", "verifc20p_", "VerifC20p_", "verifC20Q", "Verifc20.r_", "VERIFC20_s__T_", " VerifC20u_ ",
+            "\tverifc20v_  ", "vErIfC20W_"]
+
+
+def effective_prefix(configured):
+    """strings.TrimSpace (the generator pads with blanks and tabs only)"""
+    return configured.strip(" \t")
+
+
+def foreign_names(pre, name):
+    """variable names that look like `pre + name` but do not start with `pre`"""
+    if not pre:
+        return []
+    cands = [pre.swapcase() + name, pre.upper() + name, pre.lower() + name, pre[:-1] + name, "X" + pre + name,
+             pre[0].swapcase() + pre[1:] + name, pre[:-2] + pre[-2].swapcase() + pre[-1] + name]
+    return [c for c in dict.fromkeys(cands) if not c.startswith(pre)]
+
+
+FOREIGN_VALUES = [("foreign", "foreign"), ("7777", 7777), ("true", True), ("", None)]
+
+
+def with_prefix(case, configured, rng=None, p_foreign=0.5):
+    """`case` under the configured prefix: full variable names, foreign variables in between (rng None: one foreign twin
+    per variable, deterministic), the enumeration orders carried over"""
+    pre = effective_prefix(configured)
+    res = dict(case, prefix=configured)
+    env, origin = [], []
+    for k, e in enumerate(case.get("env", [])):
+        twins = foreign_names(pre, e[0])
+        if twins and (rng is None or rng.random() < p_foreign):
+            t = twins[0] if rng is None else rng.choice(twins)
+            raw, typed = FOREIGN_VALUES[0] if rng is None else rng.choice(FOREIGN_VALUES[:3])
+            if rng is None or rng.random() < 0.5:
+                env.append([t, raw, typed])
+                origin.append(None)
+        env.append([pre + e[0]] + list(e[1:]))
+        origin.append(k)
+    if not pre:
+        res["clean_env"] = True          # the loader takes every variable of the process: the harness empties it first
+    res["env"] = env
+    if case.get("orders"):
+        pos = {k: i for i, k in enumerate(origin) if k is not None}
+        extra = [i for i, k in enumerate(origin) if k is None]
+        orders = []
+        for o in case["orders"]:
+            no = [pos[k] for k in o]
+            for i in extra:
+                no.insert(rng.randint(0, len(no)) if rng is not None else 0, i)
+            orders.append(no)
+        res["orders"] = orders
+    return res
+
+
+def maybe_prefix(case, rng, p=0.3, allow_empty=False):
+    if rng.random() >= p:
+        return case
+    if allow_empty and rng.random() < 0.12:
+        return with_prefix(case, rng.choice(["", "  "]), rng)
+    return with_prefix(case, rng.choice(PREFIXES), rng)
 
 
 # ---------------------------------------------------------------------------------------------------------------
@@ -551,12 +620,12 @@ TYPE_MINIMAL = {
     ("authenticators", "basic_auth"): {"config": {"user_id": "u", "password": "p"}},
     ("authenticators", "generic"): {"config": {"identity_info_endpoint": _EP, "authentication_data_source": [{"header": "x"}],
                                                "subject": {"id": "sub"}}},
-    ("authenticators", "oauth2_introspection"): {"config": {"introspection_endpoint": _EP}},
-    ("authenticators", "jwt"): {"config": {"jwks_endpoint": _EP}},
+    ("authenticators", "oauth2_introspection"): {"config": {"introspection_endpoint": _EP, "assertions": {"issuers": ["iss"]}}},
+    ("authenticators", "jwt"): {"config": {"jwks_endpoint": _EP, "assertions": {"issuers": ["iss"]}}},
     ("authorizers", "allow"): {},
     ("authorizers", "deny"): {},
     ("authorizers", "cel"): {"config": {"expressions": [{"expression": "true"}]}},
-    ("authorizers", "remote"): {"config": {"endpoint": _EP}},
+    ("authorizers", "remote"): {"config": {"endpoint": _EP, "payload": "p"}},
     ("contextualizers", "generic"): {"config": {"endpoint": _EP}},
     ("finalizers", "noop"): {},
     ("finalizers", "header"): {"config": {"headers": {"x": "y"}}},
@@ -584,6 +653,58 @@ def type_config(cat, typ):
     mech = {"authenticators": [{"id": "a", "type": "anonymous"}], "finalizers": [{"id": "f", "type": "noop"}]}
     mech[cat] = [dict({"id": "m", "type": typ}, **extra)]
     return {"mechanisms": mech}
+
+
+# ---------------------------------------------------------------------------------------------------------------
+# options inside a mechanism's `config`: probes for the question "which names does the file validation refuse, which
+# names does the type factory refuse" (harness op `mech`), per type and place below `config`
+
+def place_str(place):
+    """`()` -> "", ("endpoint", "retry") -> "endpoint.retry", ("expressions", 0) -> "expressions[0]" (as the harness)"""
+    s = ""
+    for seg in place:
+        if isinstance(seg, int):
+            s += "[%d]" % seg
+        else:
+            s += ("." if s else "") + seg
+    return s
+
+
+def set_place(conf, place, members):
+    """make the place below `conf` a map that holds `members` (what the minimal configuration has there stays)"""
+    node = conf
+    for i, seg in enumerate(place):
+        nxt_is_list = i + 1 < len(place) and isinstance(place[i + 1], int)
+        if isinstance(seg, int):
+            while len(node) <= seg:
+                node.append({})
+            if not isinstance(node[seg], list if nxt_is_list else dict):
+                node[seg] = [] if nxt_is_list else {}
+            node = node[seg]
+        else:
+            if not isinstance(node.get(seg), list if nxt_is_list else dict):
+                node[seg] = [] if nxt_is_list else {}
+            node = node[seg]
+    for k, v in members.items():
+        node.setdefault(k, v)
+    return conf
+
+
+def mech_config(cat, typ, place=(), members=None):
+    """the minimal configuration of one mechanism of the type, with `members` added at the place below its `config`"""
+    cfg = json.loads(json.dumps(type_config(cat, typ)))          # a copy: the templates are shared
+    if members:
+        m = cfg["mechanisms"][cat][-1]
+        set_place(m.setdefault("config", {}), place, members)
+    return cfg
+
+
+def mech_cases(cfg):
+    """(the complete file through NewConfiguration + catalogue creation, the file validation alone, the same
+    configuration from variables through NewConfiguration + catalogue creation)"""
+    pl = [{"path": list(p), "value": v, "env": True, "file": False, "file_value": v} for p, v in leaves(cfg)]
+    fc = dict(base_case(cfg), op="mech")
+    return fc, dict(fc, validate=True), dict(plan_case(pl, None, rep=1), op="mech")
 
 
 # ---------------------------------------------------------------------------------------------------------------
@@ -615,8 +736,9 @@ def gen_history(rng):
             case = base_case(c)
         else:
             case = plan_case(gen_plan(rng, c, mode), rng, rep=1)
-        loads.append({k: case[k] for k in ("file", "env") if k in case})
-        loads[-1].setdefault("env", [])
+        case.setdefault("env", [])
+        case = maybe_prefix(case, rng, 0.25)
+        loads.append({k: case[k] for k in ("file", "env", "prefix") if k in case})
     return {"fam": "config", "op": "history", "loads": loads}
 
 
